@@ -8,10 +8,13 @@ import (
 	"encoding/json"
 	"fmt"
 	"sort"
+	"time"
 
 	"github.com/samsarahq/thunder/batch"
 	"github.com/samsarahq/thunder/graphql"
 	"github.com/samsarahq/thunder/graphql/schemabuilder"
+	"github.com/samsarahq/thunder/reactive"
+	"vrt/rt"
 )
 
 type User struct {
@@ -201,6 +204,21 @@ func Build(d *Data, modes Modes, h *Hooks) *graphql.Schema {
 	q.FieldFunc("users", func() []*User { return d.Users })
 	q.FieldFunc("user", func(args struct{ Id int64 }) *User { return d.UserByID(args.Id) })
 	q.FieldFunc("items", func() []*Item { return d.Items })
+	// the same objects handed to the executor by value (Item holds a slice: not comparable)
+	q.FieldFunc("usersV", func() []User {
+		var out []User
+		for _, u := range d.Users {
+			out = append(out, *u)
+		}
+		return out
+	})
+	q.FieldFunc("itemsV", func() []Item {
+		var out []Item
+		for _, it := range d.Items {
+			out = append(out, *it)
+		}
+		return out
+	})
 	q.FieldFunc("things", func() []*Thing { return d.Things() })
 	q.FieldFunc("thing", func(args struct{ I int64 }) *Thing {
 		ts := d.Things()
@@ -287,6 +305,24 @@ func Exec(ctx context.Context, schema *graphql.Schema, sched graphql.WorkSchedul
 		return nil, fmt.Errorf("execute: %w", err)
 	}
 	return Norm(res)
+}
+
+// ExecReactive is Exec inside a reactive.Rerunner (where Expensive fields go through reactive.Cache).
+func ExecReactive(schema *graphql.Schema, sched graphql.WorkScheduler, query string, vars map[string]interface{}) (res interface{}, err error) {
+	runs := 0
+	rt.RunDefault(func() {
+		rr := reactive.NewRerunner(context.Background(), func(ctx context.Context) (interface{}, error) {
+			runs++
+			res, err = Exec(ctx, schema, sched, query, vars)
+			return nil, nil
+		}, 0, false)
+		rt.QuiesceWithin(time.Second)
+		rr.Stop()
+	})
+	if runs != 1 && err == nil {
+		err = fmt.Errorf("the computation ran %d times", runs)
+	}
+	return
 }
 
 // Norm normalises a value through encoding/json.
